@@ -84,10 +84,12 @@ def fn_was_changed(unit, f):
     return any(it['status'] != 'identical' for it in cands)
 
 
-def fn_proof_perturbed(unit, f):
-    """True when every changed source item the Verus function f can denote was restructured (statements added, removed or
-    moved) in a way that dropped a proof statement or left one next to changed text: a proof that fails then says nothing
-    about the code (two harmless edits - an if/else flipped, a single-use temporary inlined - failed exactly so)."""
+def fn_proof_perturbed(unit, f, safety=False):
+    """True when every changed source item the Verus function f can denote was (a) restructured (statements added, removed or
+    moved) in a way that dropped a proof statement or left one next to changed text, or (b) merely rearranged (its bag of
+    operators, literals, field / method / function names is the template's): a proof that fails then says nothing about the
+    code (harmless edits - an if/else flipped, a temporary inlined, two independent setter calls swapped, the operands of `|`
+    flipped - failed exactly so)."""
     if any(it['kind'] != 'fn' and it['status'] != 'identical' for it in unit.items):
         return False
     segs = f.split('::')
@@ -99,7 +101,7 @@ def fn_proof_perturbed(unit, f):
         if c2:
             cands = c2
     ch = [it for it in cands if it['status'] != 'identical']
-    return bool(ch) and all(it.get('restructured') and it.get('perturbed') for it in ch)
+    return bool(ch) and all((it.get('restructured') and it.get('perturbed')) or it.get('dropped') or (it.get('rearranged') and not safety) for it in ch)
 
 
 def sha(path):
@@ -305,10 +307,14 @@ def run_check(pid, pc, tier, seed, repo, work, t0, replay):
                 if f not in exp and f != '(unnamed)':
                     undecided.append('unit %s: %s failed but is not an obligation of the ledger' % (u, f))
                     continue
-                if fn_proof_perturbed(r.unit, f):
-                    undecided.append('unit %s: %s failed, but the edit restructured the function (statements added, removed or moved) '
-                                     'and took proof annotations with it or left them next to changed text: the failed proof is no '
-                                     'evidence about the code' % (u, f))
+                # a failed *safety* obligation of executable code (overflow, index, division, shift) does not lean on the arrangement
+                # the way a postcondition proof does: it is reported even for a rearranged function (unless proof statements were lost)
+                safety = any(re.search(r'possible arithmetic underflow/overflow|possible division by zero|index out of bounds|possible bit shift|possible truncation', x) for x in texts_)
+                if fn_proof_perturbed(r.unit, f, safety):
+                    undecided.append('unit %s: %s failed, but the edit only rearranged the function (same operators, literals, calls and '
+                                     'fields; statements, operands or branches reordered, temporaries introduced or inlined, locals renamed), '
+                                     'or restructured it and took proof annotations with it: proofs are written for one arrangement, so '
+                                     'the failed proof is no evidence about the code' % (u, f))
                     continue
                 if pat is None or re.search(pat, f):
                     items = []
